@@ -31,7 +31,7 @@ func init() {
 			"decompression bombs (output large because the compressed stream says so) are allowed for: the allocation bound grows with the bytes actually returned",
 			"inputs are at most 64 KiB",
 		},
-		batches: map[string]int{"quick": 48, "thorough": 400},
+		batches: map[string]int{"quick": 48, "thorough": 96},
 		checks:  map[string]int{"quick": 30, "thorough": 120},
 	}})
 }
